@@ -4,6 +4,16 @@ TB = ("Trusted: Coq 8.16.1 kernel + vm_compute (no native_compute, no axioms: ev
       "the hand-written Gallina model, tied to /repo only by the correspondence check of each run (sampled behaviours); the Go harness (generators, oracles) ")
 SRV = ("; the server model (Model/Server.v: evaluatePushPullCase, processSubscribeOrCreate, push/pull/commit over an abstract document store) and the client protocol model (Model/Wire.v) are replayed on every run against the real OrdaService running in process over an in-memory MongoDB/MQTT stand-in and real clients: every request, response, store state and publish must coincide")
 TEXTS = {
+ "C05": {
+  "text": "Machine-checked ingredients of the protocol's convergence: a response never moves a client's checkpoint backwards nor touches its pending operations; what the server hands out is exactly the log entries after the presented checkpoint, once each, in log order; the stored log is a gapless total order in every reachable store; replicas that executed the same operations in any executable orders hold the same state (with the counter/map instances of C01). The full statement over the client-server system (Model/Net.v) is kept as a definition (C05_statement_list), its composition is not yet proved. Every run replays real multi-client histories (create / subscribe / subscribe-or-create at arbitrary points, local calls, syncs) against Net.v event by event and compares all clients and the server's rebuild at quiescence.",
+  "note": TB + SRV + "; partial: the system-level theorem is not proved, only its ingredients; manual sync mode only.",
+  "technique": "Coq proof of protocol lemmas + in-Coq differential replay of real client-server histories + quiescence oracle",
+ },
+ "C07": {
+  "text": "Machine-checked: the store invariant (gapless exactly-once log) holds for arbitrary request sequences including duplicates and stale checkpoints; outside a subscribe response a client never executes an operation with its own id as remote, wherever it stands in the pulled range; stale responses cannot move the checkpoint back. The full statement (C07_statement_list) is a definition. Every run injects duplicated requests and dropped responses into real client-server histories, replays them on the model, and compares all replicas and the server's rebuild at quiescence.",
+  "note": TB + SRV + "; partial: system-level theorem not proved; delayed (out-of-order) responses are not driven by the harness.",
+  "technique": "Coq proof of retry-safety lemmas + in-Coq differential replay with injected message faults + quiescence oracle",
+ },
  "C06": {
   "text": "Theorem C06_log_invariant: after ANY sequence of requests (arbitrary packs: option bits, checkpoints, DUIDs, operation lists, re-pushes, gaps) every datatype's stored operations carry server sequence numbers exactly 1..End in order, no checkpoint exceeds End, no operation lacks its datatype, DUIDs and (collection,key) are unique — by an invariant proved for the whole handler (all eight cases of the decision, push loop, pull, two-write commit)." ,
   "note": TB + SRV + "; the per-client clause (a client's operations appear in issue order) is so far checked by the oracle on the real store, not proved; concurrency and storage faults are C12/C08.",
